@@ -890,7 +890,31 @@ func stateProbe(c *caseT) (ok bool, ran bool) {
 		return false, true
 	}
 	b3, e3, err := a.VerifOpenAPIGenerateSpec(ctx)
-	return err == nil && bytes.Equal(b3, b2) && e3 == e2, true
+	if err != nil || !bytes.Equal(b3, b2) || e3 != e2 {
+		return false, true
+	}
+	// a generation that fails for a reason of its own (here: a context that is already cancelled, validation on)
+	// may return an error — it must not decide what later requests get: with a live context the valid document
+	// is served, with its ETag
+	e1, l1 := build()
+	all1 := append(append(append([]openapi.Operation{}, e1...), gate()), l1...)
+	wantOn, err := openapi.MustNew(c.apiOptions(true)...).Generate(context.Background(), all1...)
+	if err != nil {
+		return true, true // not a valid document (or rejected for another reason): nothing to demand
+	}
+	a2, err := app.New(app.WithServiceName("c07"), app.WithOpenAPI(c.apiOptions(true)...))
+	if err != nil {
+		return true, true
+	}
+	e2ops, l2ops := build()
+	for _, op := range append(append(e2ops, gate()), l2ops...) {
+		a2.VerifOpenAPIAddOperation(op)
+	}
+	cctx, cancel := context.WithCancel(context.Background())
+	cancel()
+	_, _, _ = a2.VerifOpenAPIGenerateSpec(cctx)
+	b4, e4, err := a2.VerifOpenAPIGenerateSpec(ctx)
+	return err == nil && bytes.Equal(b4, wantOn.JSON) && e4 == fmt.Sprintf(`"%x"`, sha256.Sum256(b4)), true
 }
 
 // appEligible: standard-method constructors, plain router paths, no two routes with the same
@@ -1631,7 +1655,7 @@ func execDigest(c *caseT) string {
 // generators
 
 var words = []string{"users", "orders", "items", "boxes", "cities", "classes", "matches", "v1", "api", "status", "s", "ies"}
-var params = []string{"id", "id", "name", "slug", "orderId", "user.id", "x-y", "q"}
+var params = []string{"id", "id", "name", "slug", "orderId", "user.id", "x-y", "q", "filepath", "path"}
 var badPaths = []string{"", "users", "/a/:", "/a/:id/:id", "/a/{id", "/a/:i d", "/a/id}", "/a/{}", "/a/{id}/:id", "/x/:a/{a}", "/a/{b/c}"}
 var opIDs = []string{"getUser", "listAll", "op1", "getUsers", "createUser"}
 var statuses = []int{200, 200, 201, 204, 400, 404, 500, 202, 301, 418, 503, 599, 100}
@@ -1670,6 +1694,8 @@ func genPath(r *hx.Rand) string {
 	}
 	if r.Chance(1, 15) {
 		b.WriteByte('/')
+	} else if r.Chance(1, 8) {
+		b.WriteString("/*") // the router's catch-all segment: a literal for the document (no parameter is declared for it)
 	}
 	return b.String()
 }
